@@ -65,7 +65,7 @@ Lemma hold_cw_after_load j th i w : hold j (cw_after_load th i w) = 0.
 Proof. unfold cw_after_load. destruct (2 <=? cnt w)%N; auto. destruct ((cnt w =? 1)%N && negb (oidx_is (proc th) i)); auto. Qed.
 
 Ltac cnt_fin I :=
-  rewrite ?hold_cw_after_load in *;
+  rewrite ?hold_cw_after_load, ?cnt_notify in *;
   repeat match goal with Hx : nth_error (ids _) _ = Some ?w |- _ =>
      lazymatch goal with | _ : cnt w = N.of_nat _ |- _ => fail | _ => destruct (I _ _ Hx) end end;
   try match goal with Hb : (cnt ?w =? 7)%N = false, Hl : (cnt ?w <= 7)%N |- _ => destruct (add1_cnt w Hl Hb) end;
